@@ -18,6 +18,8 @@ CONSTANTS
   LateEnqueue = FALSE
   ContinueAfterOversize = FALSE
   UnknownKills = FALSE
+  Faults = FALSE
+  Sticky = FALSE
 INVARIANTS TypeOK OwnReply OneReplyInOrder LinInsideCall RejectGetsFailure ConnErrOnlyIfEnded EndsOnlyByBadFrame NoReplyToBadFrame
 PROPERTIES AgentOnlyByServe FailureIsolated EndIsLocal 
 VIEW View
